@@ -26,6 +26,12 @@ const char* const kNames[] = {"set_value", "count_down", "get", "wait_for", "on_
 enum ValueType { VT_INT, VT_STRING, VT_UNIQUE, VT_VOID, VT_REF, VT_CELL, VT_LATCH, VT_INT_M2, VT_COUNT };
 
 // wait_for timeouts (ns). Index >= kFirstOverflow: now + t does not fit in int64.
+// (FutureContext::wait_for_slow computes until_ns = now + timeout_ns, which
+// overflows for these; the remaining time is then until_ns - now', and with
+// two's complement wrap-around the two errors cancel, so the observable result
+// is correct. Formal signed-overflow UB only; the harness keeps drawing them in
+// 1/5 of the runs (cfg ovf) and would report class early-timeout, site
+// wait_for-huge if such a wait ever returned false early.)
 const int64_t kYear100 = 3153600000000000000LL;
 const int64_t kTimeouts[] = {-1000, INT64_MIN, 0, 1000, 1000000, 10000000000LL, kYear100, INT64_MAX - 999, INT64_MAX};
 const int kNTimeouts = 9, kFirstOverflow = 7;
